@@ -204,8 +204,21 @@ PoolC11b(z) ==
     {MkCase(SetRows(SetRows(BaseFeed, "calendar.txt", <<Calendar(3, 3, 5)>>), "calendar_dates.txt", eq), FALSE, NoBase, FALSE, "", 0)
         : eq \in SeqsOf({CalDate(3, D(d), Num(typ)) : d \in {1, 4, 8}, typ \in {1, 2, 3}} \cup {CalDate(2, D(2), Num(1))}, 3, 3)}
 
+(* ---------------- C05: the wrong value in the wrong place ---------------- *)
+Garbage == {Blank, Bad(1), Bad(2), Bad(3), Bad(4), Bad(5), Bad(6), Num(0 - 1), Num(2147483647), T(0, 99, 99), D(8)}
+GarbageQuick == {Blank, Bad(1), Bad(5), Num(0 - 1)}
+PoolC05(G) ==
+    UNION {UNION {{MkCase(SetCell(BaseFeed, f, n, c, g), TRUE, NoBase, FALSE, "", 0) : g \in G, c \in DOMAIN BaseFeed[f][n]}
+                    : n \in {1, Len(BaseFeed[f])}} : f \in Range(Files)}
+    \cup (* two faults in the stateful spots: the stop_times trip cache and the shapes grouping *)
+    UNION {{MkCase(SetCell(SetCell(BaseFeed, f, a, ca, ga), f, b, cb, gb), FALSE, NoBase, FALSE, "", 0)
+              : a \in {1, 2}, b \in {2, 3, 4}, ca \in {"trip_id", "stop_id", "shape_id", "shape_pt_sequence", "stop_sequence"} \cap DOMAIN BaseFeed[f][1],
+                cb \in {"trip_id", "stop_id", "shape_id", "shape_pt_lat", "arrival_time"} \cap DOMAIN BaseFeed[f][1],
+                ga \in {Blank, Bad(1), Bad(5)}, gb \in {Blank, Bad(1), Bad(5)}}
+           : f \in {"stop_times.txt", "shapes.txt"}}
+
 Cases == CASE Pool = "C01" -> PoolC01(0) [] Pool = "C03stops" -> PoolC03stops(0) [] Pool = "C03refs" -> PoolC03refs(0) [] Pool = "C08" -> PoolC08(0)
-           [] Pool = "C09" -> PoolC09(0) [] Pool = "C09pairs" -> PoolC09pairs(0) [] Pool = "C10" -> PoolC10(0) [] Pool = "C11" -> PoolC11(0) [] Pool = "C11b" -> PoolC11b(0)
+           [] Pool = "C09" -> PoolC09(0) [] Pool = "C09pairs" -> PoolC09pairs(0) [] Pool = "C10" -> PoolC10(0) [] Pool = "C11" -> PoolC11(0) [] Pool = "C11b" -> PoolC11b(0) [] Pool = "C05" -> PoolC05(Garbage) [] Pool = "C05q" -> PoolC05(GarbageQuick)
 
 (* ---------------- the machine ---------------- *)
 Init == /\ case \in Cases /\ fi = 1 /\ ri = 1 /\ st = EmptySt /\ pc = "rows"
